@@ -93,7 +93,11 @@ def ordered_indices(expr, shapes):
         else:
             base_order[i] = left + 0.01
 
-    base_order = dict(sorted(base_order.items(), key=lambda x: x[0]))
+    # make the order strict: two indices with the same value (e.g. b and c in
+    # "abc,ca,ba->a") would be sorted differently by the different sorts of
+    # `einsum` and `tensor_einsum_reduce_sum`, which silently permutes axes
+    ranked = sorted(base_order.items(), key=lambda x: (x[1], x[0]))
+    base_order = {k: i for i, (k, _) in enumerate(ranked)}
     return base_order
 
 
